@@ -1,8 +1,9 @@
 (* Executable model of pkg/ffi2abi (ffi.go, ffi_param_validator.go) as of the fix commits
    5b408a5 (array schema without items), edb60a6 (member index missing / out of range / repeated),
    ab822fe (type-mismatch error formatting), 3716514 (processField error no longer dropped),
-   a8e03d8 (all array levels), ee2952f (nested components in the signature helper) and 0917534
-   (json.Unmarshal error reported).  One definition per Go function, same case order and guards;
+   a8e03d8 (all array levels), ee2952f (nested components in the signature helper), 0917534
+   (json.Unmarshal error reported), 305065f (parameter name escaped for the resource URL) and 509d77b
+   (JSON type checked at every level).  One definition per Go function, same case order and guards;
    nil dereferences and index expressions are explicit [Panic].  No proofs here.
 
    External behaviour and how it enters:
@@ -182,6 +183,40 @@ Definition ConvertABIToFFI (abi : list entry) : res ffi :=
 
 (* ---------- FFI -> ABI ---------- *)
 
+(* inputTypeValidForTypeComponent *)
+Definition json_enc_eqb (a b : json_enc) : bool :=
+  match a, b with
+  | JSONEncodingTypeBool, JSONEncodingTypeBool | JSONEncodingTypeInteger, JSONEncodingTypeInteger
+  | JSONEncodingTypeBytes, JSONEncodingTypeBytes | JSONEncodingTypeFloat, JSONEncodingTypeFloat
+  | JSONEncodingTypeString, JSONEncodingTypeString => true
+  | _, _ => false
+  end.
+
+Definition inputTypeString (s : schema) : bytes :=
+  match s_oneof s with
+  | Some l => fold_left (fun acc t => if bytes_eqb t jsonStringType then acc else t) l []
+  | None => s_type s
+  end.
+
+Definition is_elementary (tc : tcomp) : bool := match tc with CElem _ _ _ _ => true | _ => false end.
+Definition elementary_enc_is (tc : tcomp) (j : json_enc) : bool :=
+  match tc with CElem et _ _ _ => json_enc_eqb (et_json et) j | _ => false end.
+
+Definition inputTypeValidForTypeComponent (s : schema) (tc : tcomp) : res unit :=
+  let t := inputTypeString s in
+  let ok :=
+    if bytes_eqb t jsonBooleanType then elementary_enc_is tc JSONEncodingTypeBool
+    else if bytes_eqb t jsonIntegerType then elementary_enc_is tc JSONEncodingTypeInteger
+    else if bytes_eqb t jsonNumberType then elementary_enc_is tc JSONEncodingTypeFloat
+    else if bytes_eqb t jsonStringType then is_elementary tc
+    else if bytes_eqb t jsonArrayType then
+      match tc with CDynArr _ | CFixedArr _ _ => true | _ => false end
+    else if bytes_eqb t jsonObjectType then
+      match tc with CTuple _ => true | _ => false end
+    else false in
+  if ok then Ok tt
+  else do _ <- tc_string tc; Err ETypeMismatch.    (* the error text renders tc.String() *)
+
 (* parameters[i] and parameters[i] = p on the slice make(abi.ParameterArray, n) *)
 Definition slot_get {A} (l : list (option A)) (i : nat) : res (option A) :=
   match nth_error l i with Some x => Ok x | None => Panic end.
@@ -263,46 +298,16 @@ Fixpoint processSchema (name : bytes) (s : schema) {struct s} : res fparam :=
                 end) it0
            end
          else Ok []);
-      Ok (FParam name (d_type d) (d_internal d) (d_indexed d) comps)
+      let parameter := FParam name (d_type d) (d_internal d) (d_indexed d) comps in
+      (* the JSON type is checked against the Ethereum type at every level *)
+      do tc <- parseABIParameterComponents (erase parameter);
+      do _ <- inputTypeValidForTypeComponent s tc;
+      Ok parameter
     end
   end.
 
 Definition processField (name : bytes) (s : option schema) : res fparam :=
   match s with None => Err EInvalidDetails | Some sc => processSchema name sc end.
-
-(* inputTypeValidForTypeComponent *)
-Definition json_enc_eqb (a b : json_enc) : bool :=
-  match a, b with
-  | JSONEncodingTypeBool, JSONEncodingTypeBool | JSONEncodingTypeInteger, JSONEncodingTypeInteger
-  | JSONEncodingTypeBytes, JSONEncodingTypeBytes | JSONEncodingTypeFloat, JSONEncodingTypeFloat
-  | JSONEncodingTypeString, JSONEncodingTypeString => true
-  | _, _ => false
-  end.
-
-Definition inputTypeString (s : schema) : bytes :=
-  match s_oneof s with
-  | Some l => fold_left (fun acc t => if bytes_eqb t jsonStringType then acc else t) l []
-  | None => s_type s
-  end.
-
-Definition is_elementary (tc : tcomp) : bool := match tc with CElem _ _ _ _ => true | _ => false end.
-Definition elementary_enc_is (tc : tcomp) (j : json_enc) : bool :=
-  match tc with CElem et _ _ _ => json_enc_eqb (et_json et) j | _ => false end.
-
-Definition inputTypeValidForTypeComponent (s : schema) (tc : tcomp) : res unit :=
-  let t := inputTypeString s in
-  let ok :=
-    if bytes_eqb t jsonBooleanType then elementary_enc_is tc JSONEncodingTypeBool
-    else if bytes_eqb t jsonIntegerType then elementary_enc_is tc JSONEncodingTypeInteger
-    else if bytes_eqb t jsonNumberType then elementary_enc_is tc JSONEncodingTypeFloat
-    else if bytes_eqb t jsonStringType then is_elementary tc
-    else if bytes_eqb t jsonArrayType then
-      match tc with CDynArr _ | CFixedArr _ _ => true | _ => false end
-    else if bytes_eqb t jsonObjectType then
-      match tc with CTuple _ => true | _ => false end
-    else false in
-  if ok then Ok tt
-  else do _ <- tc_string tc; Err ETypeMismatch.    (* the error text renders tc.String() *)
 
 (* one FFIParam as convertFFIParamsToABIParameters sees it: name, the verdict of the jsonschema
    compile, and what json.Unmarshal(param.Schema.Bytes(), &s) yields *)
